@@ -1071,3 +1071,112 @@ func c03cacheHitsImmutable(c *Ctx, r *Result) {
 	}
 	r.Floor("C03.8", 3)
 }
+
+func init() {
+	reg := registry["C03"]
+	reg.Meta.Rules["C03.9"] = "objects cached by the reader are keyed by everything they are built from (an object cached by address alone carries the name of the first link that reached it: later links are listed under the wrong name)"
+	reg.Meta.Rules["C03.10"] = "the 'not found' result (-1) of a forward byte/string search is never used as a position or size without a dominating test (a name heap whose used size comes from such a search is taken to be empty exactly when it is full)"
+	except("C03", "C03.10", "hdf5.parsePath#strings.LastIndex#high-bound", "every caller has verified that the path starts with '/' (validateGroupPath / validateDatasetName / validateLinkPath / resolveObjectAddress's own test) and parsePath only strips a trailing slash of a path longer than '/', so a '/' is always found")
+	reg.Rules = append(reg.Rules, func(c *Ctx, r *Result) {
+		memoKeyRule(c, r, "C03.9")
+		c.sentinelRule(r, "C03.10")
+	})
+}
+
+// sentinelRule: results of {bytes,strings}.{Index*,LastIndex*} that flow into arithmetic, slice bounds, indices or
+// allocation sizes must be known non-negative there (dominating test), except the basename idiom s[LastIndex(..)+1:].
+func (c *Ctx) sentinelRule(r *Result, rule string) {
+	n := 0
+	for _, fn := range c.LibFuncs() {
+		fb := c.FB(fn)
+		instrs(fn, func(in ssa.Instruction) {
+			call, ok := in.(*ssa.Call)
+			if !ok {
+				return
+			}
+			f := call.Call.StaticCallee()
+			if f == nil || f.Pkg == nil {
+				return
+			}
+			pk := f.Pkg.Pkg.Path()
+			if (pk != "bytes" && pk != "strings") || !(strings.HasPrefix(f.Name(), "Index") || strings.HasPrefix(f.Name(), "LastIndex")) {
+				return
+			}
+			last := strings.HasPrefix(f.Name(), "LastIndex")
+			// uses
+			var check func(v ssa.Value, viaPlus1 bool, depth int)
+			seen := map[ssa.Value]bool{}
+			check = func(v ssa.Value, viaPlus1 bool, depth int) {
+				if seen[v] || depth > 4 || v.Referrers() == nil {
+					return
+				}
+				seen[v] = true
+				for _, ref := range *v.Referrers() {
+					role := ""
+					switch x := ref.(type) {
+					case *ssa.BinOp:
+						switch x.Op {
+						case token.EQL, token.NEQ, token.LSS, token.LEQ, token.GTR, token.GEQ:
+							continue // a test
+						}
+						if k, isK := constInt(x.Y); isK && k == 1 && x.Op == token.ADD && x.X == v {
+							check(x, true, depth+1)
+							continue
+						}
+						role = "arithmetic"
+					case *ssa.Convert:
+						check(x, viaPlus1, depth+1)
+						continue
+					case *ssa.Phi:
+						check(x, viaPlus1, depth+1)
+						continue
+					case *ssa.Slice:
+						switch {
+						case x.Low == v:
+							if last && viaPlus1 {
+								continue // basename idiom: s[LastIndex(s, sep)+1:] is the whole string when sep is absent
+							}
+							role = "low-bound"
+						case x.High == v:
+							role = "high-bound"
+						case x.Max == v:
+							role = "max-bound"
+						default:
+							continue
+						}
+					case *ssa.IndexAddr:
+						if x.Index != v {
+							continue
+						}
+						role = "index"
+					case *ssa.MakeSlice:
+						role = "size"
+					case *ssa.Store:
+						if x.Val != v {
+							continue
+						}
+						role = "stored"
+					case *ssa.Return:
+						continue
+					case *ssa.Call:
+						continue
+					default:
+						continue
+					}
+					n++
+					ui := ref.(ssa.Instruction)
+					cons := c.Name(fn) + "#" + pk + "." + f.Name() + "#" + role
+					// the search result itself must be known >= 0 where it is used
+					if fb.ProveGE0At(fb.lin(call), ui) {
+						r.Hold(rule, cons, c.InstrPos(ui), "the search result is known to be non-negative here")
+					} else {
+						r.Viol(rule, cons, c.InstrPos(ui), "the result of "+pk+"."+f.Name()+" is used as a position/size here although it may be -1 (not found): no dominating test excludes it")
+					}
+				}
+			}
+			check(call, false, 0)
+		})
+	}
+	r.Floor(rule, 1)
+	_ = n
+}
